@@ -96,6 +96,19 @@ class C10Monitor(fitsim.Monitor):
             d["model_cond"] = float(arg[torch.isfinite(arg)].max()) if torch.isfinite(arg).any() else 0.0
         except Exception:
             d["model_cond"] = 0.0
+        # sensitivity of one individual's attachment to a change of the model value: Bernoulli |d(-log p)/d logit| <= 1 per entry
+        # (the 0.25 slope above does not apply), Gaussian |residual| / sigma^2 per entry
+        try:
+            y = s["y"]
+            n_entries = float(y.weight.reshape(y.weight.shape[0], -1).sum(dim=1).max())
+            if "noise_std" in s.dag:
+                sig2 = (s["noise_std"].double() ** 2).min().clamp(min=1e-12)
+                resid = ((y.value - wv(s["model"])).double().abs() * (y.weight > 0)).max()
+                d["attach_sens"] = float(n_entries * resid / sig2)
+            else:
+                d["attach_sens"] = float(4.0 * n_entries)
+        except Exception:
+            d["attach_sens"] = 0.0
         return d
 
     def before_center(self, w, k):
@@ -117,7 +130,9 @@ class C10Monitor(fitsim.Monitor):
             x, y = b[key].double(), a[key].double()
             fin = torch.isfinite(x) & torch.isfinite(y)
             scale = float(x[fin].abs().max()) if fin.any() else 1.0
-            extra = 16 * EPS32 * max(b.get("model_cond", 0.0), a.get("model_cond", 0.0)) if key == "model" else 0.0
+            extra = 16 * EPS32 * max(b.get("model_cond", 0.0), a.get("model_cond", 0.0)) if key in ("model", "nll_attach_ind") else 0.0
+            if key == "nll_attach_ind":
+                extra = extra * max(b.get("attach_sens", 0.0), a.get("attach_sens", 0.0))
             if extra > 5e-5:
                 C["probe.gauge_tolerance_widened_by_conditioning"] += 1
             if x.shape != y.shape or not torch.allclose(x[fin], y[fin], rtol=3e-4, atol=5e-5 * max(1.0, scale) + extra) or not torch.equal(torch.isfinite(x), torch.isfinite(y)):
